@@ -64,8 +64,11 @@ Proof.
     cbn [sem]. apply perm_bag_eqv, bag_eqv_map; [apply project_row_respects|]. apply IHb, H2.
   - (* Return *)
     apply andb_true_iff in H as [H H2]. apply andb_true_iff in H as [H1 H3].
-    apply (list_eqb_eq _ item_eqb_eq) in H1. subst.
-    cbn [sem]. apply perm_bag_eqv, bag_eqv_map; [apply project_row_respects|]. apply IHb, H2.
+    apply (list_eqb_eq _ item_eqb_eq) in H1. apply Bool.eqb_prop in H3. subst.
+    cbn [sem]. apply perm_bag_eqv.
+    assert (Permutation (map (project_row G items0) (sem G b)) (map (project_row G items0) (sem G a))) as P
+      by (apply bag_eqv_map; [apply project_row_respects|]; apply IHb, H2).
+    unfold return_rows. destruct distinct0; [apply dedup_perm, P|exact P].
   - (* Aggregate *)
     apply andb_true_iff in H as [H H2]. apply andb_true_iff in H as [H1 H3].
     apply (list_eqb_eq _ expr_eqb_eq) in H1. apply (list_eqb_eq _ agg_eqb_eq) in H3. subst.
@@ -87,7 +90,10 @@ Qed.
 Corollary reorder_sound_return : forall G items d b a,
   rs_chk b a = true -> Permutation (sem G (PReturn items d b)) (sem G (PReturn items d a)).
 Proof.
-  intros. cbn [sem]. apply bag_eqv_map; [apply project_row_respects|]. apply reorder_sound; assumption.
+  intros G items d b a H. cbn [sem].
+  assert (Permutation (map (project_row G items) (sem G b)) (map (project_row G items) (sem G a))) as P
+    by (apply bag_eqv_map; [apply project_row_respects|]; apply reorder_sound; assumption).
+  unfold return_rows. destruct d; [apply dedup_perm, P|exact P].
 Qed.
 
 (** ** plans without join conditions (all the front ends emit) are never reordered *)
